@@ -25,7 +25,8 @@ ASSUME Mode \in {"pairs", "both"} =>
             /\ \A s \in StatesOf(p, Tok) : \A m \in AllMsgs(p, Tok) :
                    PrintT(<<"VEC", ToJson(PairVec(p, s, m))>>)
 
-DataAt(i, n) == [ j \in 1..n |-> ((i + j + Phase) % 2) + 1 ]
+\* three token values in rotation: consecutive messages always differ in payload size class
+DataAt(i, n) == [ j \in 1..n |-> ((i + j + Phase) % 3) + 1 ]
 
 GInit == /\ Mode \in {"seq", "both"}
          /\ gp \in Names(P2PProtocols) /\ gst = InitState(gp) /\ hist = <<>> /\ dead = FALSE
